@@ -42,6 +42,8 @@ type World struct {
 	e1cache  *e1State
 	frameCache map[string]*frameResult
 	renv       *rangeEnv
+	nilable    map[string]string
+	retNonNil  map[*ssa.Function]bool
 }
 
 func repoDir() string {
